@@ -148,6 +148,8 @@ type Options struct {
 	// RecordDials replaces websocket.DefaultDialer.NetDialContext by a recorder that refuses
 	// every address other than the backend's.
 	RecordDials bool
+	// OpenWrapper wraps the handler of shim open requests (the agent passes its session handler here).
+	OpenWrapper func(http.Handler, *metrics.MetricHandler) http.Handler
 }
 
 func New(o Options) *Rig {
@@ -182,7 +184,12 @@ func New(o Options) *Rig {
 			w.Write([]byte("plain"))
 			return
 		}
-		c, err := r.upgrader.Upgrade(w, rq, nil)
+		var respHdr http.Header
+		if strings.HasPrefix(rq.URL.Path, "/wscookie/") {
+			// a backend (or its load balancer) that sets a cookie in the handshake response, tagged with the opener
+			respHdr = http.Header{"Set-Cookie": {"affinity=" + rq.Header.Get("X-Tag") + ".a; Path=/"}}
+		}
+		c, err := r.upgrader.Upgrade(w, rq, respHdr)
 		if err != nil {
 			return
 		}
@@ -245,6 +252,9 @@ func New(o Options) *Rig {
 		w.Write([]byte("wrapped"))
 	})
 	openWrapper := func(h http.Handler, _ *metrics.MetricHandler) http.Handler { return h }
+	if o.OpenWrapper != nil {
+		openWrapper = o.OpenWrapper
+	}
 	h, err := websockets.Proxy(ctx, wrapped, r.Host, o.ShimPath, o.RewriteHost, o.Injection, openWrapper, nil)
 	if err != nil {
 		panic(err)
@@ -292,6 +302,7 @@ func (r *Rig) TakeDials() []string {
 type Result struct {
 	Status   int
 	Body     []byte
+	Header   http.Header
 	Panic    any
 	TimedOut bool
 }
@@ -323,6 +334,7 @@ func (r *Rig) CallHost(host, method, path string, body []byte, hdr http.Header, 
 		r.Handler.ServeHTTP(w, req)
 		res.Status = w.Code
 		res.Body = w.Body.Bytes()
+		res.Header = w.Sent
 	}()
 	select {
 	case res := <-done:
